@@ -127,8 +127,12 @@ class HammingIMQKernel(Kernel):
             value = torch.as_tensor(value).to(self.raw_beta)
         self.initialize(raw_beta=self.raw_beta_constraint.inverse_transform(value))
 
-    def _imq(self, dist: Tensor) -> Tensor:
-        return ((1 + self.alpha) / (self.alpha + dist)).pow(self.beta)
+    def _imq(self, dist: Tensor, diag: bool = False) -> Tensor:
+        alpha, beta = self.alpha, self.beta  # ... x 1: broadcasts against a (... x n) diagonal
+        if not diag:
+            # ... x 1 x 1, to broadcast against a (... x n x m) distance matrix
+            alpha, beta = alpha.unsqueeze(-1), beta.unsqueeze(-1)
+        return ((1 + alpha) / (alpha + dist)).pow(beta)
 
     def forward(self, x1: Tensor, x2: Tensor, diag: bool = False, **params):
         # GPyTorch is pretty particular about dimensions so we need to unflatten the one-hot encoding
@@ -140,11 +144,11 @@ class HammingIMQKernel(Kernel):
         if diag:
             if x1_eq_x2:
                 res = ((1 + self.alpha) / self.alpha).pow(self.beta)
-                skip_dims = [-1] * len(self.batch_shape)
-                return res.expand(*skip_dims, x1.size(-3))
+                batch_shape = torch.broadcast_shapes(self.batch_shape, x1.shape[:-3])
+                return res.expand(*batch_shape, x1.size(-3))
             else:
                 dist = x1.size(-2) - (x1 * x2).sum(dim=(-1, -2))
-                return self._imq(dist)
+                return self._imq(dist, diag=True)
 
         else:
             dist = hamming_dist(x1, x2, x1_eq_x2)
